@@ -2,7 +2,11 @@
 from checks_common import three
 
 CHECK = {
-    "runs": three("c09_epoch", [], scales=(0.2, 0.15, 1.0)),
+    "runs": three("c09_epoch", [], scales=(0.2, 0.15, 1.0)) + [
+        # store-buffering litmus of the entry fence (real hardware timing: -O2 build only); added after the
+        # independently seeded change C09-a1 (seq_cst -> acq_rel fence) escaped the EBR episodes
+        {"harness": "c09_litmus", "variant": "plain", "scale": 1.0, "args": []},
+    ],
     "design_ref": "DESIGN.md §5 C09",
     "technique": "epoch-based-reclamation client on the real Epoch under schedule perturbation (hook points in "
                  "Epoch::lock and the low_water_mark scan); use-after-reclaim detector (ASan real delete / poison + "
@@ -20,8 +24,9 @@ CHECK = {
                    "nested lock/unlock. Sequential scripts are compared with an exact model. Held on the executions "
                    "observed, not a proof."),
     "level_note": ("Trusted: gcc sanitizer runtimes, TSC causal consistency (2000-cycle margin on every cross-thread "
-                   "ordering claim), the harness. The strength of the store->fence->load entry pattern of Epoch::lock "
-                   "is not decidable on x86 (DESIGN §1)."),
+                   "ordering claim), the harness. The store->fence->load entry pattern of Epoch::lock is probed by a "
+                   "store-buffering litmus on real hardware (c09_litmus): a too-weak fence shows as a rate of violating "
+                   "rounds, its absence in N judged rounds is evidence, not proof."),
     "rule": ("one evaluation = one seeded episode: either an EBR episode (fresh Epoch, 1-3 writers x 30-600 unlinks, "
              "1-8 reader roles, one style per Epoch, drawn perturbation policy, join, quiescent-mark check, offline "
              "oracle) or a sequential script of 40-400 operations checked against the model after every step. "
